@@ -101,13 +101,13 @@ def oracle(sc, obs):
         # = silently dropped.  (when_received acknowledges first: a cancellation between the two is the price of that type.)
         if (sc.get("ack_type") or "when_saved") != "when_received":
             silently = [i for i in missing if f.acks.get(i) and not msgs[i].get("tlabel_us")]
-            if silently:
+            for i in silently:       # (one failure per message: each carries the signature elements of known finding D16)
                 out.append(dict(what="the worker task was cancelled; a valid message taken from the broker was acknowledged although "
                                      "its task function never ran (silently dropped)",
-                                observed=dict(never_run_but_acknowledged=silently, cancelled_at_us=f.cancel_t,
-                                              ack_calls_at_us={str(i): f.acks[i] for i in silently}),
+                                observed=dict(never_run_but_acknowledged=i, cancelled_at_us=f.cancel_t, ack_calls_at_us=f.acks[i],
+                                              result_error=f.err.get(i)),
                                 expected="a message that is acknowledged (when_executed / when_saved) has entered its task function once",
-                                sig=dict(kind="acked-never-run")))
+                                sig=dict(kind="acked-never-run", d16=R.d16_facts(sc, f, i, f.acks[i][0]))))
         missing = []
     older = [i for i in missing if not f.final(i)]
     if older:
@@ -184,7 +184,13 @@ def run(ctx):
     r4 = ctx.sub_rng("gen-live")             # own stream: the scenarios above are what they were
     scs += [R.gen_live(r4, PROF_LIVE) for _ in range(ctx.n(60, 4000))]
     r5 = ctx.sub_rng("gen-cancel")           # own stream
-    scs += [R.gen_live_cancel(r5, PROF_CANCEL) for _ in range(ctx.n(40, 2000))]
+    # known finding D16 (sync function submitted after the pool was shut down by the cancellation) is registered per property: while
+    # known_findings.json has no `known` entry with that signature for C01, this family is generated without its neighbourhood
+    # (sync-function messages reach the pool without suspending); with an entry the neighbourhood is explored and exactly that shape
+    # is the known finding (R.sig_d16), anything else a violation
+    d16_reg = R.d16_registered("C01")
+    rep.extra["known_finding_D16_registered_for_C01"] = d16_reg
+    scs += [R.gen_live_cancel(r5, dict(PROF_CANCEL, presubmit_restricted=not d16_reg)) for _ in range(ctx.n(40, 2000))]
     broken = explore(ctx, rep, scs, "main")
     if not ctx.quick:
         broken = explore(ctx, rep, R.grid_scenarios(), "grid") or broken
@@ -192,7 +198,8 @@ def run(ctx):
     if (broken or any(not o["ok"] for o in rep.obligations)) and not rep.failures:
         r2 = ctx.sub_rng("search")
         explore(ctx, rep, [R.gen_scenario(r2, PROF_BACKLOG) for _ in range(ctx.n(2000, 20000))], "search")
-    return rep.finish()
+    rep.extra["known_finding_D16_hits_this_run"] = sum(1 for f in rep.failures if R.sig_d16(f))
+    return rep.finish({R.SIG_D16: R.sig_d16}, {})
 
 
 def replay(ctx, path):
